@@ -129,6 +129,17 @@ CHECKS = {
         "hitting the clean-up unlink after a natural failure is a double fault and grey",
         "DESIGN.md §2 C14",
     ),
+    "C13": (
+        "exploration",
+        "Hypothesis response-grammar generation x segmentations x termination kinds; reference-parser differential, "
+        "segmentation metamorphic relation, promptness under a virtual clock over in-memory TLS",
+        "Generated server streams (valid and corrupted), cut and terminated in every way, are fed to the client "
+        "protocol objects and to the real GeminiClient over in-memory TLS: the outcome must equal the reference parse "
+        "(faithful status/meta/body with the declared charset, or an error), must not depend on segmentation, must "
+        "arrive 0 virtual seconds after the peer closes, and a stalled server is cut off within the timeout bound.",
+        "size cap lowered to 4096 in the check process; lenient status spellings and ragged-EOF after a 2x header are grey",
+        "DESIGN.md §2 C13",
+    ),
 }
 
 PENDING_REASON = "check not built yet in this round (work in progress; technique applies, see DESIGN.md)"
